@@ -245,8 +245,10 @@ class C18(Check):
         ctx.phase(self.keywords, ctx, cu, rng)
         ctx.phase(self.colorfuncs, ctx, cu, rng)
         ctx.phase(self.too_large, ctx, cu)
+        self.src_cases = []
         ctx.phase(self.strings, ctx, cu, rng)
         ctx.phase(self.urls, ctx, cu, rng)
+        ctx.phase(self.token_values, ctx, cu)
         ctx.phase(self.separators, ctx, cu, rng)
         ctx.phase(self.order_and_separators, ctx, cu, rng)
         ctx.phase(self.calc_correspondence, ctx, cu, rng)
@@ -622,7 +624,8 @@ class C18(Check):
     # -- strings and URLs through the value classes ----------------------------------------------------
     HEXD = '0123456789abcdefABCDEF'
     STR_ALPHA = ['a', 'b', 'z', 'Z', 'f', 'A', '0', '9', ' ', '"', "'", '\\', '(', ')', ',', ';', '\n', '\r', '\f', '\t',
-                 'é', '€', '\U0001F600', '/', '.', '#', '%', '{', '}', '*', '-', ':', '~', '!', '@', '\x7f', '\xa0']
+                 'é', '€', '\U0001F600', '/', '.', '#', '%', '{', '}', '*', '-', ':', '~', '!', '@', '\x7f', '\xa0', '\u3000',
+                 '\x0b', '\x01', '\x1b', '\x85']
 
     def render_string(self, rng, content, quote):
         """independent spelling choices for a CSS string with the given content (list of characters)"""
@@ -778,6 +781,7 @@ class C18(Check):
                 if not ok2:
                     ctx.violate('the written string parses back to the same value and is written unchanged', w,
                                 {'value': r, 'reparsed': pv2[0].value if pv2.length else None}, known=kf)
+            self.src_cases.append(('S', src, r))
             # the model on the stored value: Value.cssText = fmtSimple STRING r
             for ps in (DEFAULT, MINI):
                 lines.append('simple %s STRING %s' % (ps.proto(), enc(r)))
@@ -866,6 +870,29 @@ class C18(Check):
                 if got is None or got[1] != seps or got[0] != want_comps:
                     ctx.violate('the components are written in the same order with the same separators (space, comma, slash)',
                                 dict(w0, prefs=repr(ps), written=out), {'read_back': repr(got), 'want': repr((want_comps, seps))})
+
+    # -- the tokenizer-side value function (Model/NumTok.lean) against the real tokenizer ---------------
+    def token_values(self, ctx, cu):
+        """for every generated string / url() source: the token value the tokenizer delivers = tokenValue, and
+        Value.value / URIValue.uri = stringSourceValue / uriSourceValue (also inside the known regions: the model mirrors
+        the code, findings included)"""
+        from cssutils.tokenize2 import Tokenizer
+        tk = Tokenizer()
+        lines, cases = [], []
+        for kind, src, r in self.src_cases:
+            toks = list(tk.tokenize(src))
+            if len(toks) != 1 or toks[0][0] != ('STRING' if kind == 'S' else 'URI'):
+                ctx.count('tokval:not-one-token')
+                continue
+            lines.append('tokval %s %s' % (kind, enc(src)))
+            cases.append(('token value', src, toks[0][1]))
+            lines.append('srcvalue %s %s' % (kind, enc(src)))
+            cases.append(('Value.value' if kind == 'S' else 'URIValue.uri', src, r))
+        out = ctx.driver(lines) if ctx.model_ok else []
+        for (what, src, got), m in zip(cases, out):
+            ctx.case(key=('tokval', what, src), nontrivial=(got != src), kind='tokval:' + what.split('.')[0].replace(' ', '-'))
+            if m != 'OK ' + enc(got):
+                ctx.disagree(what + ' of a source string / url()', src, got, dec(m[3:]) if m.startswith('OK ') else m)
 
     # -- T18.5: order and separators under every spacer preference (values incl. calc()) ---------------
     SPACER_PREFS = ['spacer', 'listItemSpacer', 'propertyNameSpacer', 'paranthesisSpacer', 'selectorCombinatorSpacer',
@@ -1119,21 +1146,21 @@ class C18(Check):
         for content in cases:
             style = rng.choice(['u', 'u', '"', "'"])
             want = ''.join(content)
-            pad1, pad2 = rng.choice(['', '', ' ', '\t ']), rng.choice(['', '', ' ', '\n'])
+            pad1, pad2 = rng.choice(['', '', ' ', '\t ', '\f', '\r\n']), rng.choice(['', '', ' ', '\n', '\f', ' \r'])
             edge_ws = linecont = False
             if style == 'u':
                 inner = self.render_url_unquoted(rng, content)
                 sp = self.last_spell
-                # white space (as Python's str.strip sees it) at the end however spelled, at the start unless
+                # CSS white space (what urivalue strips) at the end however spelled, at the start unless
                 # written as a simple escape; or the same quote character at both ends, the first written as a hex escape
-                edge_ws = bool(want) and (want[-1].isspace() or (want[0].isspace() and sp[0] != 'simple')
+                css_ws = ' \t\r\n\f'
+                edge_ws = bool(want) and (want[-1] in css_ws or (want[0] in css_ws and sp[0] != 'simple')
                                           or (want[0] in '"\'' and want[0] == want[-1] and sp[0] == 'hex'))
             else:
                 inner = self.render_string(rng, content, style)
                 linecont = self.last_linecont
             hexq = self.last_hexquote_after_bs
             sdq = self.last_simple_dquote
-            ctrl = any((ord(c) < 0x20 and not c.isspace()) or c == '\x7f' for c in want)
             name = rng.choice(['url', 'url', 'URL', 'Url'])
             src = name + '(' + pad1 + inner + pad2 + ')'
             w0 = {'call': 'PropertyValue(text)', 'text': src}
@@ -1143,12 +1170,13 @@ class C18(Check):
                             known='C18-backslash-then-hex-escape' if hexq else None)
                 continue
             r = pv[0].uri
+            self.src_cases.append(('U', src, r))
             kf_read = ('C18-backslash-then-hex-escape' if hexq else 'C18-url-line-continuation' if linecont
                        else 'C18-url-edge-escape' if edge_ws else None)
-            needs_quotes = any(c in '()\'";,' or c.isspace() for c in want)
+            needs_quotes = any(c in '()\'";,' or c.isspace() or ord(c) < 0x20 or c == '\x7f' for c in want)
             kf = kf_read or ('C18-escaped-dquote' if sdq
                              else 'C18-url-trailing-backslash' if (style == 'u' and needs_quotes and want.endswith('\\'))
-                             else 'C18-url-control-char' if ctrl else None)
+                             else None)
             ctx.case(key=('url', src), nontrivial=(src != 'url(' + want + ')'),
                      kind='url:%s%s' % ('unquoted' if style == 'u' else 'quoted', ':region' if kf else ''),
                      sample={'url': src, 'uri': r, 'written': pv.cssText})
